@@ -96,6 +96,16 @@ func TestC06(t *testing.T) {
 				mon.Emit(r, "faults", p, "faults")
 			}
 		}
+		// a longer outage of the datastore (the flush loop retries with growing pauses until it is over)
+		if i%4 == 0 {
+			for _, n := range []int{10, 11, 30} {
+				for k := 0; k < 2*len(base.Ops)+4; k += 2 {
+					p := base
+					p.K, p.N = k, n
+					mon.Emit(r, "faults", p, "faults")
+				}
+			}
+		}
 	}
 	// transient faults inside a DeleteRange: every placement of N consecutive failing write attempts counted from
 	// the start of the deletion; afterwards (faults over) optionally more appends, a clean Stop, and the reopen oracle
